@@ -5,14 +5,14 @@ for d in ${1:-seeded/benign2}/*; do
   f=$(grep "^+++ b/" $d/patch.diff | head -1 | sed 's|+++ b/rust/ommx/src/||')
   case "$f" in
     evaluate.rs) ps="C01 C03 C04 C05 C10";;
-    linear.rs) ps="C02 C12 C13 C03";;
+    linear.rs) ps="C02 C12 C13 C03 C04 C11 C16 C08";;
     parametric_instance.rs) ps="C08 C10";;
     v1_ext/instance.rs) ps="C05 C08 C09 C11 C12 C13 C14 C15";;
-    v1_ext/function.rs) ps="C02 C04 C13 C16";;
+    v1_ext/function.rs) ps="C02 C04 C13 C16 C11 C08";;
     sample_set.rs) ps="C15";;
-    polynomial.rs) ps="C02";;
-    quadratic.rs) ps="C02 C19";;
-    sorted_ids.rs) ps="C02 C11";;
+    polynomial.rs) ps="C02 C04 C11 C16 C08";;
+    quadratic.rs) ps="C02 C19 C04 C11 C16 C08";;
+    sorted_ids.rs) ps="C02 C11 C04 C16";;
     mps/convert.rs) ps="C17";;
     qplib/convert.rs) ps="C19";;
     *) ps=$(basename $d);;
